@@ -60,9 +60,9 @@ def run(ctx):
                 srcs.append(f[0])
             elif c.name == M.ENGINE + "::scan_i2e_records":
                 srcs.append("idmap")
-            else:
+            if True:
                 # atomics passed by reference to a helper
-                for a in c.args:
+                for a in c.args[1:]:
                     l = op_local(a)
                     if l is not None:
                         o = b.origin(l)
